@@ -2,7 +2,7 @@
 From Coq Require Import List ZArith Bool Permutation Sorted.
 From Coq.Strings Require Import Byte.
 Import ListNotations.
-From SV Require Import Text G_gff C02_Model C02_Lemmas C02_Order C02_Line C02_Score C02_Feat C02_Read C02_Fix C02_Cycle C02_Cycle2.
+From SV Require Import Text G_gff C02_Model C02_Lemmas C02_Order C02_Line C02_Score C02_Feat C02_Read C02_Fix C02_Cycle C02_Cycle2 C02_Harness C02_Lenient C02_Third.
 Local Open Scope Z_scope.
 
 (* percent-encoding is undone exactly, for every byte string *)
@@ -112,6 +112,12 @@ Theorem C02_gff_roundtrip_fix : forall x,
 Proof. exact gff_roundtrip_fix. Qed.
 Print Assumptions C02_gff_roundtrip_fix.
 
+(* the writer run by the correspondence harness (invented IDs of split features without ID canonicalised to "~id<i>") is the
+   writer of the theorems on every wf_C02 list *)
+Theorem C02_harness_writer : forall x, wf_C02 x = true -> write_gff_h x = write_gff x.
+Proof. exact write_gff_h_wf. Qed.
+Print Assumptions C02_harness_writer.
+
 (* one feature is read back per feature written, with the same ordered (start, stop, strand) list *)
 Theorem C02_read_write_shape : forall x, Forall rt_feat x -> adjacent_distinct x = true ->
   exists w1 x1, write_gff x = Some w1 /\ read_gff w1 = Some x1 /\ length x1 = length x /\
@@ -141,6 +147,62 @@ Theorem C02_loc_tuple_sorted : forall L, (loc_tuple L = Some L -> locs_sorted L 
 Proof. exact (fun L => conj (loc_tuple_fix_sorted L) (loc_tuple_sorted L)). Qed.
 Print Assumptions C02_loc_tuple_sorted.
 
+(* THIRD WRITE. Also outside the round-trip domain as far as open finding F39 goes (first 5'->3' locations with attributes of their
+   own): for every wf_C02 list without location-level seqid/type/ID, neighbours differing in (ID, type, seqid), locations in
+   LocationTuple order, what is read back after one write lies inside the round-trip domain; so the second written text is a
+   fixpoint (third write = second write) and every later cycle preserves every feature *)
+Theorem C02_gff_third_write : forall x,
+  wf_C02 x = true -> adjacent_distinct x = true -> forallb (fun f => forallb loc_no_cols (flocs f)) x = true ->
+  (forall f, In f x -> loc_tuple (flocs f) = Some (flocs f)) ->
+  exists w1 x1 w2, cycle2 x = Some (w1, x1, w2) /\ wf_C02 x1 = true /\ rt_C02 x1 = true /\ fix2 x1 = true /\ roundtrip_ok x1 = true.
+Proof. exact gff_third_write. Qed.
+Print Assumptions C02_gff_third_write.
+
+(* after reading, the aliases (Feature.name, .id, .seqid, meta.score, .phase, .evalue, .type) are the GFF attributes Name, ID, ... *)
+Theorem C02_aliases_copied : forall f p, In p copyattrs ->
+  aget (snd p) (fmeta (copy_attrs_in f)) = match aget (fst p) (getgff f) with Some v => Some v | None => aget (snd p) (fmeta f) end.
+Proof. exact aliases_copied. Qed.
+Print Assumptions C02_aliases_copied.
+
+(* reader leniency on foreign text *)
+(* comment lines and blank lines may be inserted or removed anywhere without changing what is read *)
+Theorem C02_read_ignores_comments : forall ls acc id,
+  read_lines (filter (fun l => negb (skippable l)) ls) acc id = read_lines ls acc id.
+Proof. exact read_ignores_comments. Qed.
+Print Assumptions C02_read_ignores_comments.
+
+(* reading stops at the first ##FASTA line *)
+Theorem C02_read_stops_at_fasta : forall pre line post acc id, is_fasta_mark line = true ->
+  Forall (fun l => is_fasta_mark l = false) pre ->
+  read_lines (pre ++ line :: post) acc id = read_lines pre acc id.
+Proof. exact read_stops_at_fasta. Qed.
+Print Assumptions C02_read_stops_at_fasta.
+
+(* every byte may be written raw (except the escape introducer) or as %XX with hex digits of either case *)
+Theorem C02_unquote_any_encoding : forall (s : str) (es : list str), Forall2 enc_ok s es -> unquote (concat es) = s.
+Proof. exact unquote_any_encoding. Qed.
+Print Assumptions C02_unquote_any_encoding.
+
+(* blanks around a key=value item are ignored *)
+Theorem C02_parse_kv_padded : forall ws1 ws2 item, forallb is_ws ws1 = true -> forallb is_ws ws2 = true ->
+  starts_ok item = true -> ends_ok item = true -> parse_kv (ws1 ++ item ++ ws2) = parse_kv item.
+Proof. exact parse_kv_padded. Qed.
+Print Assumptions C02_parse_kv_padded.
+
+(* the reader with options (filt, filt_fast, default_ftype, comments) run by the harness is, with all options off, the reader of the theorems *)
+Theorem C02_read_options_default : forall ls acc id cm,
+  option_map fst (read_lines_o no_opts ls acc id cm) = read_lines ls acc id.
+Proof. exact read_lines_o_default. Qed.
+Print Assumptions C02_read_options_default.
+
+(* TSV/CSV end to end over a whole list: frompandas (topandas fts keys) for every admissible key selection and order *)
+Theorem C02_xsv_list : forall ks x, xsel ks = true -> forallb loc_valid x = true ->
+  map (xrecord ks) (map (xrow ks) x) =
+  map (fun f => Some (Some (if xhas KType ks then feat_type f else None, fst (loc_range (flocs f)), snd (loc_range (flocs f)),
+                            if xhas KStrand ks then feat_strand f else "?"%byte))) x.
+Proof. exact xsv_list. Qed.
+Print Assumptions C02_xsv_list.
+
 (* region excluded from the round-trip clauses, with its witness: open finding F39 (firstloc_overrides) *)
 Theorem C02_firstloc_overrides_refuted :
   exists x, wf_C02 x = true /\ forallb normalised x = false /\ fix2 x = false /\ roundtrip_ok x = false.
@@ -166,6 +228,11 @@ Proof. exact ex_cds_ok. Qed.
 
 Example C02_witness_main : wf_C02 [ex_cds] = true /\ rt_C02 [ex_cds] = true /\ loc_tuple (flocs ex_cds) = Some (flocs ex_cds).
 Proof. exact (conj eq_refl (conj eq_refl eq_refl)). Qed.
+
+Example C02_witness_third_hyps : wf_C02 [ex_firstloc] = true /\ adjacent_distinct [ex_firstloc] = true /\
+  forallb (fun f => forallb loc_no_cols (flocs f)) [ex_firstloc] = true /\ loc_tuple (flocs ex_firstloc) = Some (flocs ex_firstloc) /\
+  forallb normalised [ex_firstloc] = false.
+Proof. exact (conj eq_refl (conj eq_refl (conj eq_refl (conj eq_refl eq_refl)))). Qed.
 
 Example C02_witness_third_write : match cycle2 [ex_firstloc] with Some (_, x1, _) => fix2 x1 | None => false end = true.
 Proof. exact firstloc_third_write. Qed.
